@@ -105,6 +105,18 @@ def check(tier, seed):
         cases.append({'line': line, 'tag': tag + (' [accept]' if r else ' [reject]'), 'want': 'true' if r else 'false',
                       'model': ('forgery' in tag) or ('malformed' in tag and i % 3 == 0) or i % 9 == 0})
     core.run_and_judge(rep, cases, model_every=0)
+    # the literal Lean transcription of Algorithm 8 (Spec.verifyInternal on the key bytes: what verification_is_fips_204_algorithm_8_as_written is
+    # about) executed on the formatted message M' (built here), against the crate's decision, on a sample of every family above
+    sc = []
+    for i, (line, tag, job, expect) in enumerate(raw):
+        _, s, pkb, m, sg, c, md = job
+        if len(c) > 255 or len(sg) != R.sig_len(R.PARAMS[s]) or len(pkb) != R.pk_len(R.PARAMS[s]):
+            continue
+        if not (i % (3 if tier == 'thorough' else 11) == 0 or 'steered' in tag or 'norm' in tag):
+            continue
+        mp = m if md == 'internal' else R.format_message(md, m, c)
+        sc.append({'rust': line, 'spec': f"spec_verify {s} {pkb.hex()} {hx(mp)} {sg.hex()}", 'tag': 'verify == Spec.verifyInternal executed (literal Lean transcription)', 'map': lambda o: o})
+    core.spec_judge(rep, sc)
     acc = sum(1 for c in cases if c['want'] == 'true')
     return core.finish(rep, b, 'proof', {
         'accepting_cases': acc, 'rejecting_cases': len(cases) - acc,
